@@ -12,14 +12,11 @@
 CVT_ALL_OUT(i32, int32_t) CVT_ALL_OUT(u32, uint32_t) CVT_ALL_OUT(i64, int64_t) CVT_ALL_OUT(u64, uint64_t)
 CVT_ALL_OUT(f32, float) CVT_ALL_OUT(f64, double)
 
-// ---- arithmeticCompare for every pair of storage kinds
+// ---- arithmeticCompare for every instantiation reachable from Comparer<T>::visit(U): U in {JsonInteger, JsonUInt, JsonFloat}, T any arithmetic type
 #define CMP(a, ta, b, tb) W int w_cmp_##a##_##b(ta x, tb y) { return int(arithmeticCompare(x, y)); }
-#define CMP_ALL(a, ta) CMP(a, ta, i32, int32_t) CMP(a, ta, u32, uint32_t) CMP(a, ta, i64, int64_t) CMP(a, ta, u64, uint64_t) CMP(a, ta, f32, float) CMP(a, ta, f64, double)
-CMP_ALL(i32, int32_t) CMP_ALL(u32, uint32_t) CMP_ALL(i64, int64_t) CMP_ALL(u64, uint64_t) CMP_ALL(f32, float) CMP_ALL(f64, double)
-W int w_cmp_negleft_i64(uint64_t l, int64_t r) { return int(arithmeticCompareNegateLeft(l, r)); }
-W int w_cmp_negleft_u64(uint64_t l, uint64_t r) { return int(arithmeticCompareNegateLeft(l, r)); }
-W int w_cmp_negright_i64(int64_t l, uint64_t r) { return int(arithmeticCompareNegateRight(l, r)); }
-W int w_cmp_negright_u64(uint64_t l, uint64_t r) { return int(arithmeticCompareNegateRight(l, r)); }
+#define CMP_ALL(a, ta) CMP(a, ta, i8, int8_t) CMP(a, ta, u8, uint8_t) CMP(a, ta, i16, int16_t) CMP(a, ta, u16, uint16_t) CMP(a, ta, i32, int32_t) CMP(a, ta, u32, uint32_t) \
+  CMP(a, ta, i64, int64_t) CMP(a, ta, u64, uint64_t) CMP(a, ta, f32, float) CMP(a, ta, f64, double)
+CMP_ALL(i64, int64_t) CMP_ALL(u64, uint64_t) CMP_ALL(f64, double)
 
 // ---- parseNumber: kind + payload
 W int w_parse_kind(const char* s, uint64_t* u, int64_t* i, double* d) {
